@@ -437,15 +437,24 @@ func asteriskDefineProcess(
 		positionalArgTs = append(positionalArgTs, rt)
 	}
 
+	// the rest parameter of a user method learns its element types from the
+	// call; the rest parameter of a configured method keeps its declared type
+	restName := definedArgNames[defineArgIdx][1:]
+	declaredT :=
+		base.GetValueT(m.evaluatedObjectT.GetFrame(), class, m.method, restName, isStatic)
+	isConfigured := declaredT != nil && declaredT.IsBuiltin()
+
 	if mustBindCt >= len(positionalArgTs) {
-		base.SetValueT(
-			m.evaluatedObjectT.GetFrame(),
-			class,
-			m.method,
-			definedArgNames[defineArgIdx][1:],
-			asteriskArrayT,
-			isStatic,
-		)
+		if !isConfigured {
+			base.SetValueT(
+				m.evaluatedObjectT.GetFrame(),
+				class,
+				m.method,
+				restName,
+				asteriskArrayT,
+				isStatic,
+			)
+		}
 
 		defineArgIdx++
 
@@ -462,14 +471,16 @@ func asteriskDefineProcess(
 		argIdx++
 	}
 
-	base.SetValueT(
-		m.evaluatedObjectT.GetFrame(),
-		class,
-		m.method,
-		definedArgNames[defineArgIdx][1:],
-		asteriskArrayT,
-		isStatic,
-	)
+	if !isConfigured {
+		base.SetValueT(
+			m.evaluatedObjectT.GetFrame(),
+			class,
+			m.method,
+			restName,
+			asteriskArrayT,
+			isStatic,
+		)
+	}
 
 	argIdx++
 	defineArgIdx++
